@@ -3,6 +3,6 @@ CONSTANTS QCap = 2 MaxPend = 1 MaxOps = 4
           NoInboundFilter = FALSE NoNullCheck = FALSE AnyoneOpens = TRUE
           RepIds = {1, 5, 7}
           TrackHistory = FALSE FlowCache = "none" HostIps = {"x"} HostPorts = {1}
-          StaleVerdict = "none" HopFollowsPeer = FALSE FlagChoices = {} SignedSrcs = {}
+          StaleVerdict = "none" HopFollowsPeer = FALSE VerdictMemo = "none" FlagChoices = {} SignedSrcs = {}
           SrcSet = {"prev", "port", "other"} DkSet = {"v4", "v6", "dom4", "dom6", "domfail", "null"}
 INVARIANT OpenedOnlyByPrevHop
